@@ -42,7 +42,14 @@ def mark(x):
 
 
 def check_consumed(ob, r, labels, name='consumption'):
+    """every input core AND every factor of every QR / SVD computed on the way flows into some core of the result"""
     prov = frozenset().union(*[c.prov for c in r.attrs['cores']])
+    labels = list(labels)
+    for e in ob.ex.events:
+        if e[0] == 'qr':
+            labels += ['Q#%d' % e[2].tid, 'R#%d' % e[2].tid]
+        elif e[0] == 'svd':
+            labels += ['U#%d' % e[1]['S'].tid, 'S#%d' % e[1]['S'].tid, 'V#%d' % e[1]['S'].tid]
     missing = [l for l in labels if l not in prov]
     if missing:
         ob.fail(name, 'ghost', 'input cores %s do not flow into any core of the result (dropped)' % missing)
